@@ -376,12 +376,42 @@ def ev_const(case, rec):
     rec.sample({'published': {k: cfg.PUBLISHED_TRANS[k] for k in ['itrf2014_to_gda2020', 'atrf2014_to_gda2020']}})
 
 
+# --- two threads transforming at DIFFERENT epochs with DIFFERENT sets at the same time ----------
+from gpmc import threads as _thr
+import datetime as _dtm
+import numpy as _tnp
+import geodepy.constants as _tgc
+import geodepy.transform as _tgt
+import geodepy.convert as _tgv
+import geodepy.geodesy as _tgg
+import geodepy.statistics as _tgs
+import geodepy.survey as _tsv
+import geodepy.angles as _tga
+_V1 = [[1e-4, 2e-5, -1e-5], [2e-5, 4e-4, 3e-5], [-1e-5, 3e-5, 9e-4]]
+_V2 = [[9e-3, -2e-3, 1e-3], [-2e-3, 5e-3, 2e-3], [1e-3, 2e-3, 7e-3]]
+T_CALLS = {
+    'apm_2030': lambda: (lambda v=_tnp.array(_V1): _tgt.conform14(-4052051.7643, 4212836.2017, -2545106.0245, _dtm.date(2030, 1, 1), _tgc.itrf2014_to_gda2020, v)),
+    'apm_rev_1985': lambda: (lambda v=_tnp.array(_V2): _tgt.conform14(-2389025.0, 5043317.0, -3078531.0, _dtm.date(1985, 7, 1), _tgc.gda2020_to_itrf2014, v)),
+    'itrf08_2012': lambda: (lambda v=_tnp.array(_V2): _tgt.conform14(-4052051.7643, 4212836.2017, -2545106.0245, _dtm.date(2012, 2, 29), _tgc.itrf2008_to_gda94, v)),
+    'itrf2020_88': lambda: (lambda: _tgt.conform14(4075539.9, 931735.3, 4801629.4, _dtm.date(1999, 12, 31), _tgc.itrf2020_to_itrf88)),
+    'wrap_fwd_2018': lambda: (lambda v=_tnp.array(_V1): _tgt.transform_atrf2014_to_gda2020(-4052051.7643, 4212836.2017, -2545106.0245, _dtm.date(2018, 1, 1), v)),
+    'wrap_rev_2041': lambda: (lambda v=_tnp.array(_V2): _tgt.transform_gda2020_to_atrf2014(-2389025.0, 5043317.0, -3078531.0, _dtm.date(2041, 6, 15), v)),
+    'wrap_rev_2000': lambda: (lambda: _tgt.transform_gda2020_to_atrf2014(-4052051.7643, 4212836.2017, -2545106.0245, _dtm.date(2000, 1, 1))),
+    'add_date': lambda: (lambda: _thr.cfg.flat(vars(_tgc.itrf2005_to_gda94 + _dtm.date(2030, 1, 1)))),
+    'add_date_other': lambda: (lambda: _thr.cfg.flat(vars(_tgc.itrf2014_to_itrf2008 + _dtm.date(1985, 7, 1)))),
+}
+_tg, _te = _thr.make(T_CALLS, ['geodepy/transform.py', 'geodepy/constants.py'], 'transform:conform14:threads',
+                     quick=['apm_2030', 'apm_rev_1985', 'wrap_fwd_2018', 'wrap_rev_2041', 'add_date', 'add_date_other'],
+                     triple=('wrap_rev_2041', 'wrap_rev_2000', 'apm_2030'))
+
+
 SUBCHECKS = [
     Sub('constants', gen_const, ev_const, chunk=1, floor=1, parallel=False),
     Sub('epoch', gen_epoch, ev_epoch, chunk=2, floor=1000, guard=True, envs=1),
     Sub('identity', gen_identity, ev_identity, chunk=1, floor=100, guard=True, envs=1),
     Sub('wrappers', gen_wrap, ev_wrap, chunk=1, floor=200, guard=True, envs=1),
     Sub('covariance', gen_cov, ev_cov, chunk=1, floor=50, guard=True, envs=1),
+    Sub('threads', _tg, _te, chunk=1, floor=3, poison=False),
 ]
 
 
